@@ -378,6 +378,25 @@ use ChildState::*;
   """            if i == arg.len() {
                 cmdline.extend(std::iter::repeat('\\\\' as u16).take(num_backslashes * 2));
                 break;"""),
+ ("maybe_poll-shortcut-nested-is_none", "src/communicate.rs",
+  """            match (&fin, &fout, &ferr) {
+                (None, None, Some(..)) => return Ok((false, false, true)),
+                (None, Some(..), None) => return Ok((false, true, false)),
+                (Some(..), None, None) => return Ok((true, false, false)),
+                _ => (),
+            }""",
+  """            if fin.is_none() {
+                match (&fout, &ferr) {
+                    (Some(..), None) => return Ok((false, true, false)),
+                    (None, Some(..)) => return Ok((false, false, true)),
+                    _ => (),
+                }
+            } else if fout.is_none() && ferr.is_none() {
+                return Ok((true, false, false));
+            }"""),
+ ("prep_exec-slash-contains", "src/posix.rs",
+  """!cmd.as_bytes().iter().any(|&b| b == b'/')""",
+  """!cmd.as_bytes().contains(&b'/')"""),
 ]
 
 # additional edits (same file) belonging to a refactor: (old, new) pairs
